@@ -19,6 +19,8 @@ echo "seed: $SEED  placement: $PLACE"
 if [ "${SKIP_DEMO:-0}" != 1 ] && [ -n "$PLACE" ] && [ -f "$SEED/demo_test.go.txt" ]; then
   mkdir -p "$(dirname "$PLACE")"; cp "$SEED/demo_test.go.txt" "$PLACE"
   DCMD=$(echo "$DCMD" | sed -E "s#/tmp/seed[0-9]*-[A-Za-z0-9]+#$WT#g")
+  # the demonstration is copied into place by this script: drop "cp ..." steps of the agent's command
+  DCMD=$(python3 -c "import sys;print(' && '.join(x.strip() for x in sys.argv[1].split('&&') if not x.strip().startswith('cp ')))" "$DCMD")
   ( eval "$DCMD" ) > $WT.demo-clean.log 2>&1; echo "demo on clean tree: exit $?"
 fi
 git apply "$SEED/patch.diff" || { echo "PATCH DOES NOT APPLY"; exit 2; }
